@@ -3,6 +3,7 @@ import DustVerif.Driver.Hist
 import DustVerif.Driver.Match
 import DustVerif.Driver.Wire
 import DustVerif.Driver.Tree
+import DustVerif.Driver.HandleE2E
 import DustVerif.Driver.GenIdl
 import DustVerif.Driver.Plist
 import DustVerif.Driver.Listen
@@ -43,6 +44,7 @@ def main (args : List String) : IO UInt32 := do
   | ["wire"] => loopStateless stdin stdout WireEngine.step; return 0
   | ["match"] => loopStateless stdin stdout MatchEngine.step; return 0
   | ["tree"] => loopStateful stdin stdout TreeEngine.step TreeEngine.defaultSt; return 0
+  | ["handle"] => loopStateless stdin stdout HandleEngine.step; return 0
   | ["gen"] => loopStateless stdin stdout GenEngine.step; return 0
   | ["plist"] => loopStateless stdin stdout PlistEngine.step; return 0
   | ["listen"] => loopStateful stdin stdout ListenEngine.step {}; return 0
